@@ -71,7 +71,17 @@ def programmatic_schemas():
     return out
 
 
+_all = {}
+
+
 def all_schemas(tier):
+    """Built once per process (the runner calls shards() before forking, so workers inherit them); each shard uses its own schema."""
+    if tier not in _all:
+        _all[tier] = _build_all(tier)
+    return _all[tier]
+
+
+def _build_all(tier):
     from graphql import build_schema
 
     out = [(f"sdl{i}", build_schema(s)) for i, s in enumerate(SDLS)]
